@@ -66,6 +66,33 @@ fn main() {
             }
             if out.violations.is_empty() { 0 } else { 1 }
         }
+        Some("http-smoke") => {
+            use iggy::client::{StreamClient, UserClient};
+            let case = profiles::make_case("C06", 1);
+            let dir = scen::scratch_dir(999_999);
+            let _ = std::fs::remove_dir_all(&dir);
+            std::fs::create_dir_all(&dir).unwrap();
+            let sim = rt::Sim::new(case.sim_config());
+            let world = world::World::new(sim.clone(), dir.clone(), case.knobs.clone());
+            world.http_enabled.set(true);
+            let w = world.clone();
+            let r = sim.block_on(async move {
+                w.start().await.unwrap();
+                let http = iggy::http::client::HttpClient::create(std::sync::Arc::new(iggy::http::config::HttpClientConfig { api_url: "http://sim".into(), retries: 0 })).unwrap();
+                println!("login: {:?}", http.login_user("iggy", "iggy").await.map(|i| i.user_id));
+                println!("create: {:?}", http.create_stream("via-http", None).await.map(|s| (s.id, s.name)));
+                let tcp = w.root_client().await.unwrap();
+                println!("tcp sees: {:?}", tcp.get_streams().await.map(|l| l.iter().map(|s| (s.id, s.name.clone())).collect::<Vec<_>>()));
+                println!("http sees: {:?}", http.get_streams().await.map(|l| l.iter().map(|s| (s.id, s.name.clone())).collect::<Vec<_>>()));
+                println!("logout: {:?}", http.logout_user().await);
+                println!("after logout: {:?}", http.get_streams().await.map(|l| l.len()));
+                drop(tcp);
+                let _ = w.stop(world::StopKind::GracefulDrained).await;
+            });
+            println!("{:?}", r.is_ok());
+            let _ = std::fs::remove_dir_all(&dir);
+            0
+        }
         Some("worker") if args.len() >= 3 => {
             let stdin = std::io::stdin();
             let stdout = std::io::stdout();
